@@ -77,6 +77,19 @@ HARNESS(h_refine) {
             c->rebase();
         } else if (op == 5) {
             c->rebase();
+        } else if (op == 6) {
+            // history: collapse edge (ea,eb) (frees two node slots and two face slots), then split edge (swap_enabled>>8 encodes it) which reuses them
+            const long ec = (swap_enabled >> 8) & 0xff, ed = (swap_enabled >> 16) & 0xff;
+            auto eo = c->get_edge((unsigned) ea, (unsigned) eb);
+            if (!eo.has_value()) { io->status = 5; return; }
+            edge e = eo.value();
+            edge_set to_check;
+            const bool ok = lmr.can_be_merged(e, c);
+            OI(ok);
+            if (ok) lmr.merge_edge(e, c, to_check);
+            auto e2o = c->get_edge((unsigned) ec, (unsigned) ed);
+            OI(e2o.has_value());
+            if (e2o.has_value()) { edge e2 = e2o.value(); lmr.split_edge(e2, c, to_check); }
         }
     } catch (const mesh_integrity_exception& e) {
         io->status = 1;
